@@ -19,7 +19,9 @@ LEVEL_NOTE = "the reference for 'this edit must fail' is that a fresh build of t
 RULE = ("Hypothesis draws a system spec and a history of 3-9 steps, each an ordinary edit (C01 algebra) or a provoking "
         "edit: base_ram_consumption / base_compute_consumption x50, server_utilization_rate x0.001, server or storage "
         "fixed_nb_of_instances = 0 or 1 with server_type on-premise, job data_stored made strongly negative, "
-        "base_storage_need set to 0 under deleting jobs, storage_capacity / ram divided by 1e6 under a fixed count. "
+        "base_storage_need set to 0 under deleting jobs, storage_capacity / ram divided by 1e6 under a fixed count, or "
+        "an in-place list operation (append / += / extend / insert) putting a job that deletes 10^6 TB into a live "
+        "step, followed half of the time by another in-place operation on the same list. "
         "When the live edit raises and a fresh build of the target inputs raises too, the previous value is "
         "re-assigned (inverse edit); then snapshot(live) == snapshot(build(inputs before)), the structural graph "
         "invariants of C08 hold, and the following edits are checked against fresh builds like in C01. Non-trivial = "
